@@ -23,6 +23,15 @@ example : convertFV poscDb (Sym.ofString "length") (Sym.ofString "in") (Sym.ofSt
 example : convertFV poscDb (Sym.ofString "pressure") (Sym.ofString "psig") (Sym.ofString "Pa") ⟨0, ⟨1 / 2⟩⟩
     = .ok ⟨101325, ⟨R 6894757 2000⟩⟩ := by decide +kernel
 
+/-- the direct classmethod call with the target-unit quantity: 2 1/2 cm = 25 mm (20 mm + 10/2 mm), and
+degC → degF with a degF quantity keeps the offset: 2 1/2 degC = 36.5 degF -/
+example : convertFractionValue poscDb (.quantity ⟨Sym.ofString "length", Sym.ofString "mm"⟩)
+    (Sym.ofString "cm") (Sym.ofString "mm") ⟨2, ⟨1 / 2⟩⟩ = .ok ⟨20, ⟨5⟩⟩ := by decide +kernel
+example : (convertFractionValue poscDb (.quantity ⟨Sym.ofString "temperature", Sym.ofString "degF"⟩)
+    (Sym.ofString "degC") (Sym.ofString "degF") ⟨2, ⟨1 / 2⟩⟩).map FV.value = .ok (R 73 2) := by decide +kernel
+example : convertFractionValue poscDb (.qtype (Sym.ofString "length"))
+    (Sym.ofString "cm") (Sym.ofString "mm") ⟨2, ⟨1 / 2⟩⟩ = .ok ⟨20, ⟨5⟩⟩ := by decide +kernel
+
 example : Printable (21 / 4) := Or.inr ⟨525000, 5, by norm_num, by norm_num, by norm_num, by norm_num⟩
 example : Printable (-3 / 10000) := Or.inr ⟨300000, 9, by norm_num, by norm_num, by norm_num, by
   rw [abs_of_neg (by norm_num)]; norm_num⟩
